@@ -25,6 +25,7 @@ Line protocol of C01 (see harness/cmd/vh/c01.go):
   sstseq n1 {hex} n2 {hex}  SetCellStr on A1.., save+open, SetCellStr on the next cells: shared-string index of every
                   cell and the table (model: SaveSst.setCellString, SaveSst.opened)
   mergeseq n {x1 y1 x2 y2} MergeCell calls (corners in any order) on a new worksheet; answer = the stored merged-range list (SaveMerge.mergeCell)
+  mergeops n {m|u x1 y1 x2 y2} MergeCell / UnmergeCell calls in order on a new worksheet; answer = the stored merged-range list (SaveMerge.mergeCell / unmergeCell)
   hmerge n {c1 r1 c2 r2} the stored merged-range list of a worksheet before a real save; answer = the stored list after
                   OpenReader (model: SaveMerge.normalize = flatMergedCells)
   hbook <book>    sheet list / visibility / active tab / merged ranges / defined names of a generated workbook
@@ -257,6 +258,18 @@ def parseRects : Nat → List String → Option (List SaveMerge.Rect)
     | _, _, _, _, _ => none
   | _, _ => none
 
+/-- `mergeops n {m|u x1 y1 x2 y2}`: MergeCell / UnmergeCell calls in order on the stored list -/
+def applyMergeOps : Nat → List String → List SaveMerge.Rect → Option (List SaveMerge.Rect)
+  | 0, [], l => some l
+  | n + 1, k :: a :: b :: c :: d :: w, l =>
+    match a.toNat?, b.toNat?, c.toNat?, d.toNat? with
+    | some a, some b, some c, some d =>
+      if k = "m" then applyMergeOps n w (SaveMerge.mergeCell l a b c d)
+      else if k = "u" then applyMergeOps n w (SaveMerge.unmergeCell l a b c d)
+      else none
+    | _, _, _, _ => none
+  | _, _, _ => none
+
 def showRects (l : List SaveMerge.Rect) : String :=
   s!"{l.length}" ++ String.join (l.map fun m => s!" {m.c1} {m.r1} {m.c2} {m.r2}")
 
@@ -347,6 +360,11 @@ def step (w : List String) : String :=
   | "mergeseq" :: n :: g => match n.toNat? with
     | some n => match parseRects n g with
       | some l => "ok " ++ showRects (l.foldl (fun acc m => SaveMerge.mergeCell acc m.c1 m.r1 m.c2 m.r2) [])
+      | none => "bad-op"
+    | none => "bad-op"
+  | "mergeops" :: n :: g => match n.toNat? with
+    | some n => match applyMergeOps n g [] with
+      | some l => "ok " ++ showRects l
       | none => "bad-op"
     | none => "bad-op"
   | "hbook" :: g => stepBook g
